@@ -8,6 +8,7 @@ import (
 
 	"github.com/IrineSistiana/mosproxy/internal/dnsmsg"
 	"github.com/IrineSistiana/mosproxy/internal/pool"
+	"github.com/IrineSistiana/mosproxy/internal/verifhook"
 	"github.com/rs/zerolog"
 )
 
@@ -36,11 +37,17 @@ func getRequestContext() *RequestContext {
 	rc := requestContextPool.Get().(*RequestContext)
 	rc.start = time.Now()
 	rc.uid = requestContextUid.Add(1)
+	if verifhook.On {
+		verifhook.Ev("obj.get", "rc", rc)
+	}
 	return rc
 }
 
 // Note: Response will be released as well if not nil.
 func releaseRequestContext(rc *RequestContext) {
+	if verifhook.On {
+		verifhook.Ev("obj.release", "rc", rc)
+	}
 	if rc.Response.Msg != nil {
 		dnsmsg.ReleaseMsg(rc.Response.Msg)
 	}
